@@ -95,12 +95,13 @@ type scenario struct {
 	Faults     int    // total non-default answers the director may give (keeps unbounded runs finite)
 	StopKind   string // "", "stop", "cancel": whether the director may stop / cancel at any point
 	Bound      int
+	Bad        int  // 1-based index of an entry the log serves with a truncated (unparsable) leaf_input; 0 = none. The fetcher hands it on verbatim; the scanner skips it and goes on
 	Slow       bool // slow consumer: every callback invocation is a gate, so Stop / cancel and answers can land while a batch is only partly handed over
 }
 
 func (s scenario) String() string {
-	return fmt.Sprintf("N=%d [%d,%d) batch=%d fetchers=%d cont=%v grow=%v mode=%s workers=%d buf=%d faults=%d stop=%q bound=%d slow=%v",
-		s.N, s.Start, s.End, s.Batch, s.Fetchers, s.Continuous, s.Grow, s.Mode, s.Workers, s.Buffer, s.Faults, s.StopKind, s.Bound, s.Slow)
+	return fmt.Sprintf("N=%d [%d,%d) batch=%d fetchers=%d cont=%v grow=%v mode=%s workers=%d buf=%d faults=%d stop=%q bound=%d slow=%v bad=%d",
+		s.N, s.Start, s.End, s.Batch, s.Fetchers, s.Continuous, s.Grow, s.Mode, s.Workers, s.Buffer, s.Faults, s.StopKind, s.Bound, s.Slow, s.Bad-1)
 }
 
 type reqInfo struct {
@@ -108,7 +109,17 @@ type reqInfo struct {
 	start, end int64
 }
 
+// servedEntry is what the log serves for index i in scenario sc.
+func servedEntry(sc scenario, i int64) ct.LeafEntry {
+	e := stored[i]
+	if sc.Bad > 0 && i == int64(sc.Bad-1) {
+		return ct.LeafEntry{LeafInput: e.LeafInput[:11], ExtraData: e.ExtraData}
+	}
+	return e
+}
+
 type gatedLog struct {
+	sc   scenario
 	env  *gate.Env
 	mu   sync.Mutex
 	reqs []reqInfo
@@ -160,7 +171,7 @@ func (g *gatedLog) GetRawEntries(ctx context.Context, start, end int64) (*ct.Get
 	}
 	rsp := &ct.GetEntriesResponse{}
 	for i := 0; i < a.n; i++ {
-		rsp.Entries = append(rsp.Entries, stored[start+int64(i)])
+		rsp.Entries = append(rsp.Entries, servedEntry(g.sc, start+int64(i)))
 	}
 	return rsp, nil
 }
@@ -188,7 +199,7 @@ func runScenario(sc scenario) func(t *testing.T, x *gate.Exec) {
 			rand.Seed(int64(sc.N*1000 + sc.Batch))
 		}
 		env := gate.NewEnv()
-		lg := &gatedLog{env: env}
+		lg := &gatedLog{env: env, sc: sc}
 		size := sc.N
 		var mu sync.Mutex
 		var got []delivery
@@ -439,7 +450,7 @@ func runScenario(sc scenario) func(t *testing.T, x *gate.Exec) {
 		for _, b := range kept {
 			for i, e := range b.Entries {
 				idx := b.Start + int64(i)
-				if idx < 0 || idx >= int64(len(stored)) || string(e.LeafInput) != string(stored[idx].LeafInput) || string(e.ExtraData) != string(stored[idx].ExtraData) {
+				if idx < 0 || idx >= int64(len(stored)) || string(e.LeafInput) != string(servedEntry(sc, idx).LeafInput) || string(e.ExtraData) != string(servedEntry(sc, idx).ExtraData) {
 					x.Violation("retained-batch-overwritten", "%v: the batch delivered for index %d no longer holds the log's bytes for that index when read after the scan (a buffer handed to the callback was reused)", sc, idx)
 				}
 			}
@@ -460,6 +471,9 @@ func (parityMatcher) Matches(l *ct.LeafEntry) bool {
 }
 
 func selectedBy(sc scenario, i int64) (bool, string) {
+	if sc.Bad > 0 && i == int64(sc.Bad-1) && sc.Mode != "fetcher" {
+		return false, "" // the scanner cannot parse it: counted as unparsable, never handed to a callback
+	}
 	switch sc.Mode {
 	case "fetcher":
 		return true, "batch"
@@ -501,7 +515,7 @@ func oracle(sc scenario, x *gate.Exec, lg *gatedLog, got []delivery, size int, f
 	selected := func(i int64) (bool, string) { return selectedBy(sc, i) }
 	want := func(i int64) string {
 		if sc.Mode == "fetcher" {
-			return string(stored[i].LeafInput) + "|" + string(stored[i].ExtraData)
+			return string(servedEntry(sc, i).LeafInput) + "|" + string(servedEntry(sc, i).ExtraData)
 		}
 		return string(stored[i].LeafInput)
 	}
@@ -619,6 +633,12 @@ func scenarios(th bool) []scenario {
 		}
 	}
 	out = append(out, scenario{N: 4, Batch: 3, Fetchers: 1, Mode: "scan-all", Workers: 2, Buffer: 1, Faults: 1, StopKind: "cancel", Bound: 2})
+	// an unparsable entry inside a batch: first, in the middle, last of its batch
+	for _, bad := range []int{1, 2, 3, 5} {
+		out = append(out, scenario{N: 5, Batch: 3, Fetchers: 1, Mode: "scan-all", Workers: 1, Buffer: 0, Faults: 1, Bound: 1, Bad: bad})
+		out = append(out, scenario{N: 5, Batch: 5, Fetchers: 2, Mode: "scan-precertonly", Workers: 2, Buffer: 1, Faults: 1, Bound: 1, Bad: bad})
+	}
+	out = append(out, scenario{N: 5, Batch: 2, Fetchers: 2, Mode: "fetcher", Faults: 1, Bound: 1, Bad: 2})
 	// slow consumers: Stop / cancel and further answers while a fetched batch is only partly handed over
 	for _, w := range []int{1, 2} {
 		for _, b := range []int{0, 1} {
